@@ -68,6 +68,24 @@ so that the renderings of the earlier modules stay byte-identical):
     `[e for x, y in zip(a, b)]` is `[e[x := t[0], y := t[1]] for t in zip(a, b)]`;
   * `a, b = h(…)` and `d[k] = h(…)` for a nested multi-statement helper `h` are inlined like `x = h(…)`.
 
+Additions of phase 6 (refactor round 3, notes/PHASE6_neutral_refactors_round3.md; all of them leave the renderings of the
+unchanged source byte-identical, none depends on `plumbing`):
+  * `x is E.m` / `x is not E.m` with a member of an Enum class that defines no `__eq__`/`__ne__`/`__hash__` is `==` / `!=`
+    (equality of such members IS identity); PyLite's own `is` stays reserved for `None`;
+  * `x in {A, B}` / `x not in {A, B}` with a set display of enum members / int, str, bool, None constants is membership in the
+    list of the elements (their hash is consistent with `==`);
+  * outside the plumbing modules a call `C(a=x, b=y)` of a same-file class / function whose keywords (after the positional
+    arguments) fill a prefix of the signature is written positionally (at most one non-trivial value: evaluation order);
+  * `math.prod(it)` (`from math import prod` / `import math`) is `reduce(mul, it, 1)`;
+  * `super().m(a, …)` inside a method of `class C(B)` with the single base `B` is `B.m(self, a, …)`;
+  * a MODULE-LEVEL function of the same file whose body is a single `return <expr>` is inlined like a nested single-return
+    helper (so hoisting such a helper out of the function changes nothing); an OPAQUE helper (`opaque=`) that is no longer
+    nested is looked for at module level: the only non-inlinable same-file function the body calls keeps the name `helper#k`;
+  * `x = E` directly followed by `return R`, `x` bound nowhere else and read exactly once - as the first thing `R` evaluates -
+    is `return R[x := E]`;
+  * `if a: (if b: S)` without any `else` is `if a and b: S`;
+  * `extract_funcs` follows a function that was moved to another private module and re-exported (`from ._x import f`).
+
 Parameters and local variables are alpha-normalised (v0, v1, … in order of first occurrence), so renaming them,
 reformatting, comments, docstrings and type annotations do not change the translation at all (the rendering does
 not mention the source names either, so the module's status stays 'same').  `names_of(src, funcs)` prints the mapping."""
@@ -325,13 +343,30 @@ class Tr:
         # (name, position among the nested defs); found by name, or - after a renaming - by position
         order = [s.name for s in fn.body if isinstance(s, ast.FunctionDef)]
         self.forced_opaque = set()
+        self.module_opaque = {}     # module-level function standing for the opaque helper #k (see below)
         for name, k in opaque:
             if name in self.helpers:
                 self.forced_opaque.add(name)
             elif k < len(order):
                 self.forced_opaque.add(order[k])
             else:
-                raise TranslationError(f"{fn.name}: no nested helper `{name}` / #{k}")
+                # the opaque helper is no longer nested: hoisted to module level (possibly renamed).  It is then the ONLY
+                # module-level function of the same file that the body calls and that is not an inlinable single-return
+                # helper; it keeps its external name `helper#k` (the theorems are parametric in what it computes, exactly
+                # as for the nested helper)
+                mod_funcs = {n.name: n for n in getattr(module, "body", []) if isinstance(n, ast.FunctionDef)}
+                bound = {a.arg for n in ast.walk(fn) if isinstance(n, (ast.FunctionDef, ast.Lambda)) for a in n.args.args} | \
+                        {n.id for n in ast.walk(fn) if isinstance(n, ast.Name) and isinstance(n.ctx, ast.Store)}
+                cands = set()
+                for c in ast.walk(fn):
+                    if isinstance(c, ast.Call) and isinstance(c.func, ast.Name) and c.func.id in mod_funcs \
+                            and c.func.id not in bound and c.func.id not in self.helpers and mod_funcs[c.func.id] is not fn:
+                        body = [x for x in mod_funcs[c.func.id].body if not _is_docstring(x)]
+                        if not (len(body) == 1 and isinstance(body[0], ast.Return)):
+                            cands.add(c.func.id)
+                if len(cands) != 1 or self.module_opaque:
+                    raise TranslationError(f"{fn.name}: no nested helper `{name}` / #{k}")
+                self.module_opaque[cands.pop()] = k
         self.fresh = 0
         # every name bound somewhere in the function: parameters (also of nested defs / lambdas), assignment / loop /
         # comprehension targets.  Any other name that is used as a value is a module-level one.
@@ -645,6 +680,9 @@ class Tr:
         return False
 
     def call(self, e: ast.Call, sub):  # noqa: C901, PLR0911, PLR0912
+        if isinstance(e.func, ast.Name) and e.func.id in self.module_opaque and e.func.id not in sub and not e.keywords \
+                and not any(isinstance(a, ast.Starred) for a in e.args):
+            return ("ext", f"helper#{self.module_opaque[e.func.id]}", [self.expr(a, sub) for a in e.args])
         sup = self.super_call(e)
         if sup is not None:
             e = sup
@@ -710,6 +748,8 @@ class Tr:
                 if starred:
                     raise TranslationError(f"starred call of the variable {name}")
                 return ("ext", "call", [("var", name)] + [self.expr(a, sub) for a in e.args])
+            if name in self.module_opaque and not starred:
+                return ("ext", f"helper#{self.module_opaque[name]}", [self.expr(a, sub) for a in e.args])
             mh = self.module_helper(name) if not starred and self.inline_depth < 4 else None      # noqa: PLR2004
             if mh is not None and len(mh.args.args) == len(e.args) and all(_simple(a) for a in e.args):
                 self.inline_depth += 1
